@@ -124,14 +124,14 @@ var damages = []string{"truncate", "garbage", "empty", "otherpkg", "selfdecl", "
 
 // Profile tunes scenario generation per property.
 type Profile struct {
-	FaultPM, BadPM, RmPM, DamagePM, RepeatPM, StdoutPM, InterjectPM, EvolvePM, TemplatePM int
-	Crash                                                                                 bool
+	FaultPM, BadPM, RmPM, DamagePM, RepeatPM, StdoutPM, InterjectPM, EvolvePM, TemplatePM, FaultTemplatePM int
+	Crash                                                                                                  bool
 }
 
 // Profiles by property.
 var Profiles = map[string]Profile{
 	"C15": {FaultPM: 80, BadPM: 40, RmPM: 500, DamagePM: 250, RepeatPM: 250, StdoutPM: 30, EvolvePM: 200, TemplatePM: 350, Crash: true},
-	"C17": {FaultPM: 450, BadPM: 250, RmPM: 250, DamagePM: 120, RepeatPM: 120, StdoutPM: 120, InterjectPM: 30, Crash: true},
+	"C17": {FaultPM: 450, BadPM: 250, RmPM: 250, DamagePM: 120, RepeatPM: 120, StdoutPM: 120, InterjectPM: 30, FaultTemplatePM: 300, Crash: true},
 	"C18": {FaultPM: 300, BadPM: 250, RmPM: 300, DamagePM: 150, RepeatPM: 100, StdoutPM: 150, InterjectPM: 150, Crash: false},
 }
 
@@ -158,6 +158,32 @@ func GenScenario(tp *tape.Tape, seed uint64, pf Profile) *Scenario {
 	}
 	sc.IncompleteMod = tp.Chance(70, 1000)
 	sc.StartAliased = tp.Bool()
+	if pf.FaultTemplatePM > 0 && tp.Chance(pf.FaultTemplatePM, 1000) {
+		// a scripted fault history: a first clean run, then something that
+		// changes what the failure path has to cope with, then a run with a fault
+		sc.IncompleteMod = false
+		sc.Place = Placements[[]int{0, 0, 1, 2, 7, 9, 10, 12}[tp.Int(8)]]
+		first := genRun(tp, Profile{}, sc.Place)
+		first.Rm, first.Stdout = false, false
+		faulty := genRun(tp, Profile{FaultPM: 1000, Crash: false}, sc.Place)
+		faulty.Stdout = false
+		prims := []string{"rename", "rename", "close", "write", "sync", "chmod", "open"}
+		pr := prims[tp.Int(len(prims))]
+		faulty.Fault = &simos.Rule{Prim: pr, Nth: tp.Int(2), Action: "error", Errno: errnosFor[pr][tp.Int(len(errnosFor[pr]))]}
+		switch tp.Int(4) {
+		case 0:
+			sc.Steps = []Step{first, {Kind: StepDamage, Damage: "readonly"}, faulty, {Kind: StepRepeat}}
+		case 1:
+			crash := first
+			crash.Fault = &simos.Rule{Prim: []string{"rename", "write", "close", "chmod"}[tp.Int(4)], Action: "crash", Frac: 500}
+			sc.Steps = []Step{first, crash, genRun(tp, Profile{}, sc.Place), faulty}
+		case 2:
+			sc.Steps = []Step{first, {Kind: StepEvolve, Damage: "shape"}, faulty, {Kind: StepRepeat}}
+		default:
+			sc.Steps = []Step{first, faulty, {Kind: StepRepeat}}
+		}
+		return sc
+	}
 	if pf.TemplatePM > 0 && tp.Chance(pf.TemplatePM, 1000) {
 		// a scripted regeneration history with random flags: generate in place,
 		// change something, regenerate with -rm (and once more without)
